@@ -163,4 +163,42 @@ mod verif_kani_message {
             while i < 12 { if i < a || i >= a + 8 { assert!(d[i] == old[i]); } i += 1; }
         }
     }
+
+    // C02/C10 (bounded): lookups through the iterator adaptors on messages of three zero-length attributes with symbolic
+    // types (FINGERPRINT excluded: its CRC loop is out of reach).  Discharges, on these shapes, the contract that VX assumes
+    // for Message::raw_attribute: the first exposed attribute of the type.
+    #[kani::proof]
+    #[kani::unwind(6)]
+    fn k02_lookups_small() {
+        let t: [u16; 3] = kani::any();
+        let mut i = 0;
+        while i < 3 { kani::assume(t[i] != 0x8028); i += 1; }
+        let mut b = [0u8; 32];
+        b[1] = 1; b[3] = 12;
+        b[4] = 0x21; b[5] = 0x12; b[6] = 0xa4; b[7] = 0x42;
+        let mut i = 0;
+        while i < 3 { b[20 + 4 * i] = (t[i] >> 8) as u8; b[21 + 4 * i] = t[i] as u8; i += 1; }
+        let q: u16 = kani::any();
+        if let Ok(msg) = Message::from_bytes(&b) {
+            // exposure rule on the three types
+            let mut exposed = [false; 3];
+            let mut st = 0u8;
+            let mut i = 0;
+            while i < 3 {
+                let ty = t[i];
+                if st == 0 { exposed[i] = true; st = if ty == 0x0008 { 1 } else if ty == 0x001c { 2 } else { 0 }; }
+                else if st == 1 && ty == 0x001c { exposed[i] = true; st = 2; }
+                else { st = 2; }
+                i += 1;
+            }
+            let mut first: Option<usize> = None;
+            let mut i = 3;
+            while i > 0 { i -= 1; if exposed[i] && t[i] == q { first = Some(i); } }
+            assert!(msg.has_attribute(AttributeType::new(q)) == first.is_some());
+            match msg.raw_attribute(AttributeType::new(q)) {
+                Some(a) => { assert!(first.is_some()); assert!(a.get_type().value() == q && a.length() == 0); }
+                None => assert!(first.is_none()),
+            }
+        }
+    }
 }
